@@ -20,4 +20,6 @@ PROPERTY RemoveSelectsAnother
 PROPERTY Atomic
 PROPERTY NotifyExactly
 PROPERTY OwnMapping
+PROPERTY ObjectsFollowSelection
+PROPERTY ObjectsOtherwiseUntouched
 CHECK_DEADLOCK FALSE
